@@ -280,7 +280,28 @@ func main() {
 			if sn.sealed != "" && (n+*seed)%2 == 0 {
 				fcSrc = filepath.Join(sn.sealed, ".frac-cache")
 			}
-			switch (n + *seed) % 4 {
+			switch (n + *seed) % 6 {
+			case 4, 5:
+				// well-formed, but the entries say nothing (all numbers zero / empty objects): a cache written by another
+				// version or damaged in place; the loader must not believe an entry that cannot be true
+				if raw, err := os.ReadFile(fcSrc); err == nil {
+					var m map[string]map[string]any
+					if json.Unmarshal(raw, &m) == nil {
+						for name, ent := range m {
+							if (n+*seed)%6 == 5 {
+								m[name] = map[string]any{}
+								continue
+							}
+							for k, v := range ent {
+								if _, num := v.(float64); num {
+									ent[k] = 0
+								}
+							}
+						}
+						out, _ := json.Marshal(m)
+						os.WriteFile(filepath.Join(dir, ".frac-cache"), out, 0o660)
+					}
+				}
 			case 0: // missing
 			case 1:
 				copyFile(fcSrc, filepath.Join(dir, ".frac-cache"), -1)
